@@ -20,14 +20,10 @@ Proof. intros [|] [|]; split; reflexivity. Qed.
 Definition kwargs_dialect_path_full : Prop := forall he hk config call,
   kw_used ret_dialect he hk config call = kw_expected he hk config call.
 
-(* ... is false on the current code: the with-dialect lines call encoder(..) without the keyword *)
-Theorem kwargs_dialect_path_refuted : ~ kwargs_dialect_path_full.
-Proof. intro H. specialize (H true true 1%Z None). vm_compute in H. discriminate. Qed.
-
-(* it holds for encoders without keywords (msgpack, toml) *)
-Theorem kwargs_dialect_path_partial : forall he hk config call,
-  he && hk = false -> kw_used ret_dialect he hk config call = kw_expected he hk config call.
-Proof. intros [|] [|] config call H; try discriminate; reflexivity. Qed.
+(* ... holds too (since /repo fix of _add_pack_method_with_dialect_lines; it was refuted before:
+   known finding C04/orjson-options-ignored-with-call-dialect, now in the fixed list) *)
+Theorem kwargs_dialect_path : kwargs_dialect_path_full.
+Proof. intros [|] [|] config call; reflexivity. Qed.
 
 (* which formats have encoder keywords: read from the mixins' builder params (K104a) *)
 Definition has_kwargs (F: fmt) : bool :=
@@ -55,8 +51,8 @@ Section Doc.
     destruct F; try (exfalso; apply HF; reflexivity); destruct dialect_given; reflexivity.
   Qed.
 
-  (* to_jsonb(orjson_options=o) / Config.orjson_options without a call-time dialect *)
-  Theorem method_doc_orjson_plain config call b :
-    method_doc false FOrjson config call b = ser_kw FOrjson (Some (param_value config call)) b.
-  Proof. unfold method_doc. rewrite kwargs_plain_path. reflexivity. Qed.
+  (* to_jsonb(orjson_options=o) / Config.orjson_options, with or without a call-time dialect *)
+  Theorem method_doc_orjson dialect_given config call b :
+    method_doc dialect_given FOrjson config call b = ser_kw FOrjson (Some (param_value config call)) b.
+  Proof. unfold method_doc. destruct dialect_given; [rewrite kwargs_dialect_path | rewrite kwargs_plain_path]; reflexivity. Qed.
 End Doc.
